@@ -7,11 +7,11 @@ import re
 from vlib import sut
 from vlib.runner import Violation, watchdog
 
-FILES = ['a', 'b', 'c']
-ENTRY_LISTS = [[], ['a'], ['b'], ['c'], ['b.tex'], ['c.tex'], ['a', 'b'], ['b', 'a'], ['b', 'c'], ['c', 'b'], ['b', 'b'], ['c', 'a.tex'], ['a', 'a']]
-ENTRY_LISTS_2 = [e for e in ENTRY_LISTS if not any(x.startswith('c') for x in e)]
-ROOTS = [['a.tex'], ['a.tex', 'b.tex'], ['a.tex', 'a.tex'], ['b.tex', 'a.tex']]
-SKIPS = [None, 'b.tex', '[bc]\\.tex', 'a.tex']
+FILES = ['a', 'b.x', 'ab.x']      # names with a dot inside, one name is the tail of another
+ENTRY_LISTS = [[], ['a'], ['b.x'], ['ab.x'], ['b.x.tex'], ['ab.x.tex'], ['a', 'b.x'], ['b.x', 'a'], ['b.x', 'ab.x'], ['ab.x', 'b.x'], ['b.x', 'b.x'], ['ab.x', 'a.tex'], ['a', 'a']]
+ENTRY_LISTS_2 = [e for e in ENTRY_LISTS if not any(x.startswith('ab') for x in e)]
+ROOTS = [['a.tex'], ['a.tex', 'b.x.tex'], ['a.tex', 'a.tex'], ['b.x.tex', 'a.tex']]
+SKIPS = [None, 'b\\.x\\.tex', '.*b\\.x\\.tex', 'a.tex']
 
 
 def reference(roots, graph, skip):
@@ -35,7 +35,7 @@ def run_graph(graph, roots, skip, workdir):
     case = {'graph': graph, 'roots': roots, 'skip': skip}
     for i, f in enumerate(FILES):
         macs = ['\\input{%s}' % t if (i + k) % 2 == 0 else '\\include{%s}' % t for k, t in enumerate(graph.get(f, []))]
-        txt = 'Text of file %s.\n%% \\input{c}\n' % f + ' and '.join(macs) + '\nEnd of %s \\verb|\\input{b}|.\n' % f
+        txt = 'Text of file %s.\n%% \\input{ab.x}\n' % f + ' and '.join(macs) + '\nEnd of %s \\verb|\\input{b.x}|.\n' % f
         with open(os.path.join(workdir, f + '.tex'), 'w') as fh:
             fh.write(txt)
     args = ['--include'] + (['--skip', skip] if skip else []) + roots
@@ -92,18 +92,18 @@ def run(ctx):
     for la, lb in itertools.product(ENTRY_LISTS_2, repeat=2):
         for roots in ROOTS:
             for skip in SKIPS:
-                cases.append(({'a': la, 'b': lb, 'c': []}, roots, skip))
+                cases.append(({'a': la, 'b.x': lb, 'ab.x': []}, roots, skip))
     if ctx.tier == 'thorough':
         cases = []
         for la, lb, lc in itertools.product(ENTRY_LISTS, repeat=3):
             for roots in ROOTS:
                 for skip in SKIPS:
-                    cases.append(({'a': la, 'b': lb, 'c': lc}, roots, skip))
+                    cases.append(({'a': la, 'b.x': lb, 'ab.x': lc}, roots, skip))
         ctx.stats.extra['inclusion_graph_space_complete'] = True
     else:
         rnd = random.Random(ctx.seed)
         for _ in range(420):
-            cases.append(({'a': rnd.choice(ENTRY_LISTS), 'b': rnd.choice(ENTRY_LISTS), 'c': rnd.choice(ENTRY_LISTS)}, rnd.choice(ROOTS), rnd.choice(SKIPS)))
+            cases.append(({'a': rnd.choice(ENTRY_LISTS), 'b.x': rnd.choice(ENTRY_LISTS), 'ab.x': rnd.choice(ENTRY_LISTS)}, rnd.choice(ROOTS), rnd.choice(SKIPS)))
     for i, (graph, roots, skip) in enumerate(cases):
         if i % ctx.nshards != ctx.shard:
             continue
